@@ -5,7 +5,7 @@ import hashlib, json, os, re, subprocess, sys, time, glob
 VERIF = os.path.dirname(os.path.dirname(os.path.dirname(os.path.abspath(__file__))))
 COQ = os.path.join(VERIF, "coq")
 OCAML = os.path.join(VERIF, "ocaml")
-EVID = os.path.join(VERIF, "evidence")
+EVID = os.environ.get("VERIF_EVID", os.path.join(VERIF, "evidence"))
 REPLAYS = os.path.join(EVID, "replays")
 FORBIDDEN = r"\bAdmitted\b|\badmit\b|\bAxiom\b|\bParameter\b|\bConjecture\b|Unset Guard|bypass_check|type-in-type|impredicative-set|Admit Obligations"
 
@@ -156,7 +156,8 @@ def write_evidence(pid, tier, seed, level, coverage, wall, violations, assumptio
     open(os.path.join(EVID, pid + ".json"), "w").write(json.dumps(ev, indent=1, sort_keys=True) + "\n")
 
 
-def repo_fingerprint(repo="/repo"):
+def repo_fingerprint(repo=None):
+    repo = repo or os.environ.get("VERIF_REPO", "/repo")
     h = hashlib.sha256()
     for p in sorted(glob.glob(os.path.join(repo, "*.go"))):
         if p.endswith("_test.go"):
